@@ -195,6 +195,7 @@ def call_sim(case, G, lab, tr, full, rules=None):
     if sim in HAS_RECS and case["recs"]:
         kw["initial_recovereds"] = [lab(i) for i in case["recs"]]
     f = getattr(EoN, sim)
+    kw.update(case.get("_objs", {}))      # caller-owned initial-condition containers (C19)
     with rngmod.scripted(tr):
         if sim in ("fast_SIR", "fast_SIS"):
             if case.get("ew") is not None:
